@@ -5,10 +5,14 @@ import (
 	"sync"
 
 	"github.com/attestantio/dirk/rules"
+	standardrules "github.com/attestantio/dirk/rules/standard"
 	"github.com/attestantio/dirk/services/checker"
+	staticchecker "github.com/attestantio/dirk/services/checker/static"
 	"github.com/attestantio/dirk/services/fetcher"
+	memfetcher "github.com/attestantio/dirk/services/fetcher/mem"
 	"github.com/attestantio/dirk/services/locker"
 	"github.com/attestantio/dirk/services/unlocker"
+	localunlocker "github.com/attestantio/dirk/services/unlocker/local"
 	"github.com/google/uuid"
 	e2types "github.com/wealdtech/go-eth2-types/v2"
 	e2wtypes "github.com/wealdtech/go-eth2-wallet-types/v2"
@@ -76,7 +80,9 @@ type RulesCall struct {
 // RulesWrap sits between the real ruler and the real rules service: yield points before and
 // after every signing rule, optional fault injection, and a census of evaluations.
 type RulesWrap struct {
-	rules.Service
+	// The concrete service, not the interface: whatever further methods it offers stay visible to type assertions
+	// by the code that is handed the wrapper (the same holds for the other wrappers below).
+	*standardrules.Service
 	s     *Sched
 	inst  *Instance
 	plan  *FaultPlan
@@ -278,7 +284,7 @@ func (l *LockerWrap) Unlock(key [48]byte) { l.rec("unlock", key[:]); l.Service.U
 
 // FetcherWrap returns the real accounts wrapped in observers and can fail lookups.
 type FetcherWrap struct {
-	fetcher.Service
+	*memfetcher.Service
 	s    *Sched
 	inst *Instance
 	plan *FaultPlan
@@ -437,7 +443,7 @@ var (
 
 // CheckerWrap can make the permission check refuse.
 type CheckerWrap struct {
-	checker.Service
+	*staticchecker.Service
 	plan *FaultPlan
 	pop  *Population
 }
@@ -456,7 +462,7 @@ func (c *CheckerWrap) Check(ctx context.Context, creds *checker.Credentials, acc
 
 // UnlockerWrap can make unlocking fail or find no passphrase.
 type UnlockerWrap struct {
-	unlocker.Service
+	*localunlocker.Service
 	plan *FaultPlan
 	s    *Sched
 }
@@ -476,3 +482,12 @@ func (u *UnlockerWrap) UnlockAccount(ctx context.Context, w e2wtypes.Wallet, a e
 }
 
 func (a *acctBase) inner() e2wtypes.Account { return a.Account }
+
+// The wrappers still are what the services are declared to be.
+var (
+	_ rules.Service    = (*RulesWrap)(nil)
+	_ fetcher.Service  = (*FetcherWrap)(nil)
+	_ checker.Service  = (*CheckerWrap)(nil)
+	_ unlocker.Service = (*UnlockerWrap)(nil)
+	_ locker.Service   = (*LockerWrap)(nil)
+)
